@@ -120,7 +120,14 @@ func (m *MonC20) owner(ctx sdk.Context, o orderSnap, owner string) ownerSnap {
 	return os
 }
 
-func (m *MonC20) spotTrigger(ctx sdk.Context, o tradeshieldtypes.SpotOrder) string {
+func (m *MonC20) spotTrigger(ctx sdk.Context, o tradeshieldtypes.SpotOrder) (res string) {
+	// the chain's price function can panic on degenerate pools (Pow of a zero base); inside a
+	// transaction baseapp turns that into a failed tx, here it means "cannot tell"
+	defer func() {
+		if r := recover(); r != nil {
+			res = "unknown"
+		}
+	}()
 	k := m.sim.N0.App.TradeshieldKeeper
 	if o.OrderType == tradeshieldtypes.SpotOrderType_MARKETBUY {
 		return "yes"
@@ -142,7 +149,12 @@ func (m *MonC20) spotTrigger(ctx sdk.Context, o tradeshieldtypes.SpotOrder) stri
 	return "no"
 }
 
-func (m *MonC20) perpTrigger(ctx sdk.Context, o tradeshieldtypes.PerpetualOrder) string {
+func (m *MonC20) perpTrigger(ctx sdk.Context, o tradeshieldtypes.PerpetualOrder) (res string) {
+	defer func() {
+		if r := recover(); r != nil {
+			res = "unknown"
+		}
+	}()
 	p, err := m.sim.N0.App.PerpetualKeeper.GetAssetPrice(ctx, o.TradingAsset)
 	if err != nil || p.IsZero() {
 		return "unknown"
